@@ -37,7 +37,7 @@ fn plan(cfg: &RunCfg) -> EncPlan {
     p.len_reps = cfg.pick(4, 30) as u32;
     p.extra_lens = vec![300, 508, 512, 516, 600];
     p.max_body = 255;
-    p.random_per_form = cfg.pick(20_000, 400_000);
+    p.random_per_form = cfg.pick(20_000, 1_200_000);
     p.param_sweep_reps = cfg.pick(2, 40) as u32;
     p.addr_sweep_reps = cfg.pick(1, 10) as u32;
     if cfg.part == "rel" {
